@@ -26,7 +26,7 @@ RULE = ("spec trees restricted to the compiler's documented feature set (no lamb
 ASSUMPTIONS = ["inputs the original rejects are out of scope (generated code omits checks, documented)",
                "documented restrictions: _index/Index, parsed hooks, discard, _subcons/_io, lambdas, Debugger, look-ahead over truncated data"]
 
-FRAG = V.SEQUENTIAL - {"index", "bomstr", "compressed"}
+FRAG = V.SEQUENTIAL - {"index", "bomstr", "compressed", "lamlen"}      # (lambdas other than Rebuild functions: documented exclusion)
 
 
 def context_dependent(spec):
